@@ -3,7 +3,10 @@
 // Package verifhook provides named hook points for external verification harnesses.
 package verifhook
 
-import "sync/atomic"
+import (
+	"fmt"
+	"sync/atomic"
+)
 
 type hookFn func(name string, args ...string)
 
@@ -20,3 +23,7 @@ func Point(name string, args ...string) {
 		f(name, args...)
 	}
 }
+
+// ID returns an identifier for a pointer-like value (channel, pointer), so that a harness can relate
+// objects it holds to the ones named at hook points.
+func ID(v interface{}) string { return fmt.Sprintf("%p", v) }
